@@ -1,7 +1,7 @@
 (* The line protocol: one case line in, one canonical result line out. *)
 From Coq Require Import String.
 From TlsModel Require Export Entries.
-From TlsModel Require Import SpecEntries StatesEntry States Flows.
+From TlsModel Require Import SpecEntries StatesEntry States Flows NtEntry.
 
 Definition all_entries : list (string * entry_fn) := entries_tls ++ entries_ext ++ entries_kx ++ entries_dtls ++ spec_entries_tls.
 
@@ -23,6 +23,14 @@ Definition run_line (line : list byte) : list byte :=
   | name :: rest =>
       if beq_bytes name (str "states") then run_states_line tls_state_transition rest else
       if beq_bytes name (str "spec.states") then (str "= " ++ run_states_line spec_transition rest)%list else
+      if beq_bytes name (str "@nt") then run_nt_line rest else
+      if beq_bytes name (str "spec.@nt") then spec_nt_line rest else
+      if beq_bytes name (str "@conv") then str "(conv ok)" else
+      if beq_bytes name (str "spec.@conv") then str "= (conv ok)" else
+      if beq_bytes name (str "@sig") then run_sig_line rest else
+      if beq_bytes name (str "spec.@sig") then spec_sig_line rest else
+      if beq_bytes name (str "@keybits") then run_keybits_line rest else
+      if beq_bytes name (str "spec.@keybits") then spec_keybits_line rest else
       match find_entry name all_entries with
       | Some f =>
           let (args, inp) := split_last rest in
